@@ -144,7 +144,16 @@ func init() {
 			if derr != nil {
 				o.fail("deprecated-spelling-fails", "the deprecated spelling fails to build: "+derr.Error(), cs, dumpFS(fs2, "/w"), nil, nil)
 			} else if dep != base {
-				o.fail("deprecated-spelling-differs:"+strings.Join(uniqStrs(usedAll), "+"), "build(T) != build(rewrite(T))", cs, map[string]interface{}{"current": dumpFS(fs, "/w"), "deprecated": dumpFS(fs2, "/w")}, firstDiff(base, dep), nil)
+				class := "deprecated-spelling-differs:" + strings.Join(uniqStrs(usedAll), "+")
+				what := "build(T) != build(rewrite(T))"
+				// recogniser: `patchesJson6902` runs AFTER namespace/prefix/suffix/labels, `patches` before them, so a target
+				// selector can match a resource under its new name in one spelling and not in the other.  The generated
+				// JSON patches only add metadata.annotations.jp: if that is the whole difference, it is that finding.
+				if strings.Contains(strings.Join(usedAll, ","), "patchesJson6902") && stripJP(base) == stripJP(dep) {
+					class = "json6902-target-selected-after-renaming"
+					what = "a patchesJson6902 target selects a different set of resources than the same entry under `patches` (it runs after the renaming transformers)"
+				}
+				o.fail(class, what, cs, map[string]interface{}{"current": dumpFS(fs, "/w"), "deprecated": dumpFS(fs2, "/w")}, firstDiff(base, dep), nil)
 			}
 			// ---- `kustomize edit fix` on the innermost layer written in deprecated spellings, at the FS root
 			L0 := t.Layers[0]
@@ -195,3 +204,26 @@ func uniqStrs(xs []string) []string {
 }
 
 var _ = fmt.Sprint
+
+// stripJP removes the annotation written by the generated JSON patches (and an annotations map left empty by that)
+func stripJP(out string) string {
+	var ls []string
+	lines := strings.Split(out, "\n")
+	for i := 0; i < len(lines); i++ {
+		if strings.TrimSpace(lines[i]) == "jp: v" || strings.HasPrefix(strings.TrimSpace(lines[i]), "jp: ") {
+			continue
+		}
+		ls = append(ls, lines[i])
+	}
+	// an `annotations:` key whose only entry was jp
+	var out2 []string
+	for i := 0; i < len(ls); i++ {
+		if strings.TrimSpace(ls[i]) == "annotations:" && (i+1 >= len(ls) || indentOf(ls[i+1]) <= indentOf(ls[i])) {
+			continue
+		}
+		out2 = append(out2, ls[i])
+	}
+	return strings.Join(out2, "\n")
+}
+
+func indentOf(l string) int { return len(l) - len(strings.TrimLeft(l, " ")) }
